@@ -19,7 +19,7 @@ import (
 var Check = &mc.Check{
 	ID:    "C07",
 	Level: "model_checking",
-	Rule: "every string of <=N tokens over {/ . a %2e %2f % \\} (N=8 quick, 10 thorough) and of <=5 (6) tokens over the extended alphabet adding {%2E %252e %2F %5c .. //}, " +
+	Rule: "every string of <=N tokens over {/ . a %2e %2f % \\} (N=8 quick, 10 thorough) and of <=5 (6) tokens over the extended alphabet adding {%2E %252e %2F %5c .. //}, and of <=5 tokens behind paddings of 118..132 and 4090 bytes, " +
 		"fed to URI.Parse(host,target).Path() (host set / unset) and utils.CleanPath; non-trivial = targets whose decoded form contains a '..' segment, a '.' segment or an empty segment (the normaliser has to act)",
 	Run:    run,
 	Replay: replay,
@@ -172,7 +172,7 @@ func checkOne(c *mc.Ctx, u *protocol.URI, target string) {
 	}
 }
 
-func enum(c *mc.Ctx, alpha []string, maxTok int, tag string) {
+func enum(c *mc.Ctx, alpha []string, maxTok int, tag, pad string) {
 	ev := c.Counter("executions")
 	nt := c.Counter("nontrivial")
 	// shard on the first two tokens
@@ -207,7 +207,7 @@ func enum(c *mc.Ctx, alpha []string, maxTok int, tag string) {
 				rec(prefix+t, depth+1, true)
 			}
 		}
-		s := ""
+		s := pad
 		for _, k := range pre {
 			s += alpha[k]
 		}
@@ -226,8 +226,13 @@ func run(c *mc.Ctx) {
 	for _, s := range []string{"/a/../../%2e%2e/a", "%2f..%2f.", "\\..\\a/%2e/./"} {
 		c.Sample(map[string]string{"target": s, "path": RefPath(s)})
 	}
-	enum(c, base, nb, "base")
-	enum(c, ext, ne, "ext")
+	enum(c, base, nb, "base", "")
+	enum(c, ext, ne, "ext", "")
+	// long targets: the same token strings behind paddings that straddle CleanPath's 128-byte stack buffer
+	for k := 118; k <= 132; k++ {
+		enum(c, base, 5, fmt.Sprintf("pad%d", k), "/"+strings.Repeat("a", k))
+	}
+	enum(c, base, 5, "pad4096", "/"+strings.Repeat("a", 4090))
 	c.Add("transitions", c.Get("executions")*3)
 }
 
